@@ -219,6 +219,38 @@ class PropertyRun:
         except Exception:
             pass
 
+    def frame_scan(self):
+        """frame fact over the files the property is anchored in: no function writes module-level state (vf/frame_scan.py,
+        decided on the AST, no solver).  It holds on the pinned tree.  A write found later is not by itself a
+        violation (a correctly keyed cache preserves every property): it is listed as undecided - results may
+        now depend on the call history, which the bounded layer (many calls in one process) decides."""
+        from .frame_scan import scan_source
+        from .bind import REPO
+        files = []
+        try:
+            for l in open(os.path.join(VERIF, 'properties.jsonl')):
+                p = json.loads(l)
+                if p['id'] == self.pid:
+                    files = p.get('anchors', {}).get('files', [])
+        except Exception:
+            return
+        res = {'files': [], 'functions_scanned': 0, 'writes': []}
+        import ast as _ast
+        for f in files:
+            path = os.path.join(REPO, f)
+            try:
+                src = open(path).read()
+                finds, mod = scan_source(src, f)
+            except Exception:
+                continue
+            res['files'].append(f)
+            res['functions_scanned'] += sum(1 for n in _ast.walk(_ast.parse(src)) if isinstance(n, _ast.FunctionDef))
+            for x in finds:
+                res['writes'].append('%s:%d %s: %s' % (f, x['line'], x['function'], x['what']))
+                self.undecided.append({'obligation': 'frame:no-write-to-module-state(%s:%s)' % (f, x['function']),
+                                       'reason': '%s at line %d: later calls may depend on earlier ones; left to the bounded layer' % (x['what'], x['line'])})
+        self.frame = res
+
     def triage(self):
         """sat -> replay on the real code; unknown/error/unsupported -> small-scope refutation, else undecided"""
         world = self.world
@@ -703,6 +735,9 @@ class PropertyRun:
             'samples': samples or ['(no deductive obligations for this property in this run)'],
             'explanation': plan.EXPLANATION,
         }
+        if getattr(self, 'frame', None) is not None:
+            cov['frame_no_module_state'] = dict(self.frame, result=('holds: no function of the anchored files writes module-level state'
+                                                                    if not self.frame['writes'] else 'writes found (undecided, see bounded layer)'))
         if getattr(self, 'vc_cached', 0):
             cov['vc_results_reused'] = ('%d function(s): obligations generated and discharged earlier in this checkout for the same repository '
                                         'sources, verifier code, tier and seed (by the check of another property) were reused' % self.vc_cached)
@@ -765,6 +800,10 @@ def run_property(pid, tier, seed):
     plan = importlib.import_module('props.' + pid)
     pr = PropertyRun(plan, tier, seed)
     pr.log("== %s (%s) tier=%s seed=%d" % (pid, plan.TITLE, tier, seed))
+    try:
+        pr.frame_scan()
+    except Exception:
+        pass
     if plan.FUNCTIONS:
         pr.deductive()
         pr.triage()
